@@ -1,3 +1,4 @@
 pub mod trace;
 pub mod sel;
 pub mod linktraffic;
+pub mod netwire;
